@@ -479,6 +479,30 @@ impl Ctx {
         }
     }
 
+    /// One generated case for each listed length (the seed is varied per length).
+    pub fn forall_lens<T, S>(&mut self, sub: &str, lens: &[usize], mk: impl Fn(usize) -> S, check: impl Fn(&T) -> PResult)
+    where
+        T: Debug + Serialize + DeserializeOwned,
+        S: Strategy<Value = T>,
+    {
+        if let Mode::Replay { .. } = self.mode {
+            self.forall(sub, 1, mk(lens.first().copied().unwrap_or(0)), check);
+            return;
+        }
+        let seed0 = self.seed;
+        for (i, n) in lens.iter().enumerate() {
+            if (i as u32) % self.nshards != self.shard {
+                continue;
+            }
+            self.seed = seed0 ^ ((*n as u64) << 20);
+            let shard = self.shard;
+            self.shard = 0;
+            self.forall(sub, 1, mk(*n), &check);
+            self.shard = shard;
+        }
+        self.seed = seed0;
+    }
+
     /// Complete enumeration of a finite domain with the same oracle functions.
     pub fn each<T, I>(&mut self, sub: &str, items: I, check: impl Fn(&T) -> PResult)
     where
